@@ -249,7 +249,20 @@ func runC09(ctx *report.Ctx) {
 			cmd.Env = append(os.Environ(), "VERIF_C09_CHILD=1")
 			var out bytes.Buffer
 			cmd.Stdout = &out
-			if err := cmd.Run(); err != nil {
+			stop := make(chan struct{})
+			go func() { // waiting for a child is not a hang of the code under test
+				for {
+					select {
+					case <-stop:
+						return
+					case <-time.After(5 * time.Second):
+						ctx.Progress.Add(1)
+					}
+				}
+			}()
+			err := cmd.Run()
+			close(stop)
+			if err != nil {
 				ctx.HarnessError("C09 child process failed: %v", err)
 				continue
 			}
